@@ -35,7 +35,14 @@
                                              (numpy's comparison on binary64 is trusted; the refusal stream exercises it)
   quantifier: "all replacement values" = no hypothesis on the masked cells in `AgreeOffMask`; "any chunk counts and any batch" = universally
   quantified `kDist kScore batch`; "every shipped MCMC model" = `ModelKind` (sampler model: SparseDrugCombo only, see above).
-  harness-only besides the above: multi-call histories of one model object (instalments), memory layout, command line / file round trips.
+  harness-only besides the above: memory layout, command line / file round trips of the real h5 container.
+  Props/C04Regress.lean (model growth after the seeded rounds):
+    "each exactly once" after ANY sequence of add_observations calls → `C04_index_tables_consistent`, `C04_index_tables_partition`
+        (the sampler's per-unit index tables partition 0 … n_obs-1 consistently with the rows; model `Model/SamplerIndex.lean`)
+    "refuses NaN / negative observations" through the FILE stage → `C04_load_preserves_observations`, `C04_file_stage_refuses_bad_observed`,
+        `C04_file_stage_noninterference` (C02's load model composed with training; model `Model/TrainFile.lean`)
+    Regression (not a clause): `C04_S5_restart_numbering_counterexample` (S5-C04: bulk helper numbering every call from 0)
+    Regression (not a clause): `C04_S7_nan_to_zero_on_load_counterexample` (S7-C04: a summary on load maps NaN ↦ 0.0)
 -/
 import Batchie.Lemmas.Train
 import Batchie.Lemmas.ScorePipeline
